@@ -4,7 +4,9 @@ from . import combsweep
 LEVEL = 'exploration'
 RULE = ('every catalogue arithmetic block x legal width/parameter configuration; inputs exhaustive when the total input '
         'width <= 12 (quick) / 14 (thorough) bits, else boundary x boundary + random; a case is (block, config, input vector); '
-        'non-trivial = some input non-zero or the exact result needed reduction mod 2**w; distinct by content hash')
+        'non-trivial = some input non-zero or the exact result needed reduction mod 2**w; distinct by content hash; history class: ONE long-lived instance per '
+        'block x configuration driven with A,B,A returns over a small pool of in-domain vectors and, for every block with a documented domain (Div/Mod/SignedDiv divisor 0, '
+        'rotation amounts beyond the width), A, an outside-domain vector that is applied and propagated but not judged, then A again (judged)')
 SHARDS = {'quick': 1, 'thorough': 16}
 TIMEOUT = {'quick': 600, 'thorough': 3000}
 MIN_NONTRIVIAL = {'quick': 1000, 'thorough': 10000}
@@ -48,6 +50,18 @@ def combsweep_replay(run, case):
         for w in ins:
             w.put((1 << w.getWidth()) - 1)
         sim.propagateAll()
+    elif c.get('history') is not None:
+        # history workload: one long-lived plain instance; the earlier vectors (possibly outside the documented domain) are applied and propagated first
+        with muted():
+            ins, outs = e.build(hw, cfg, hw.wire)
+            sim = hw.getSimulator()
+        for vec in c['history']:
+            for w, v in zip(ins, vec):
+                w.put(int(v, 16) if isinstance(v, str) else v)
+            try:
+                sim.propagateAll()
+            except Exception as ex:
+                print('replay: earlier vector', vec, 'raises', repr(ex))
     elif c.get('shared_inputs'):
         from .combsweep import build_aliased
         ins, outs, sim, hw = build_aliased(e, cfg, c['shared_inputs'])
